@@ -82,6 +82,9 @@ PLAIN = {
     "explicit-key-compact-seq": "? a\n: - b\n  - c\n",
     "compact-map-first-key-nested": "- a:\n    x: 1\n  b: 2\n",
     "block-scalars-min-indent": "a: |\n b\nc: >-\n d\n",
+    "block-scalar-keep-structural-body": "notes: |+\n  todo: fix: later\n\nafter: 1\n",
+    "block-scalar-headers-structural-bodies": "a: |+\n  k: v: w\n  \"unclosed\nb: >+\n  [1, 2\n  - x\n  y\nc: |2+\n    a: b: c\nd: |+2\n    'q\ne: |-\n  k: v: w\nf: >-\n  {a\ng: |2-\n    - x\n   - y\nh: >2\n    a: b: c\nend: 1\n".replace("g: |2-\n    - x\n   - y\n", "g: |2-\n    - x\n    y\n"),
+    "block-scalar-in-seq-keep": "- |+\n  a: b: c\n\n- >+\n  \"q\n- end\n",
     "empty-items": "- \n- a\n-\n  b\n- - - c\n",
 }
 
